@@ -121,7 +121,12 @@ class Constant(Leaf):
     def __post_init__(self):
         super().__post_init__()
         # NOTE: not "or": the literals 0, 0.0 and False are falsy
-        if self.literal is None or (isinstance(self.literal, str) and not self.literal):
+        # note: and not when there is no ast (a model rebuilt from its
+        #   fields): the empty constant `` would become None
+        if self.ast is not None and (
+            self.literal is None
+            or (isinstance(self.literal, str) and not self.literal)
+        ):
             self.literal = self.ast
 
     def _parse(self, ctx: Ctx) -> Any:
